@@ -648,6 +648,13 @@ class BuiltinMixin(object):
     f = z3.Function('op_raises_' + fn.label, *([z3.IntSort()] + [Val] * (len(args) - 1) + [z3.BoolSort()]))
     return [(st, VBool(f(fn.t, *[self.to_val(st, a) for a in args[1:]])))]
 
+  def b_callable_id(self, st, args, kwargs):
+    """spec: the identity of an opaque callable (an integer)."""
+    v = args[0]
+    if isinstance(v, VCallable):
+      return [(st, VInt(v.t))]
+    return [(st, VInt(Val.c(self.to_val(st, v))))]
+
   def b_class_named(self, st, args, kwargs):
     """spec: the class object with this (unqualified or dotted-suffix) name, independent of the enclosing module's imports."""
     name = z3.simplify(args[0].t).as_string()
